@@ -64,6 +64,9 @@ var pool = []string{
 	"github.com/Azure/Go-SDK", "github.com/azure/go-sdk", "github.com/Azure/go_sdk",
 	"gopkg.in/yaml.v3", "gopkg.in/yaml.v2", "example.com/yaml",
 	"example.com/mod/target/sub", "example.com/mod/other/target", "example.com/target",
+	// third-party paths that END in a std package's full path (and those std packages)
+	"errors", "github.com/pkg/errors", "golang.org/x/net/context", "example.com/x/math/rand", "example.com/y/crypto/rand", "slices", "golang.org/x/exp/slices",
+	"github.com/x/encoding/json", "example.com/net/url", "example.com/fork/go/token", "example.com/vendor/text/template", "example.com/os", "example.com/a/io",
 	"github.com/x/a--b", "example.com/foo-_bar", "example.com/bindings/c++", "example.com/a·b", "example.com/٣a", "example.com/a..b", "example.com/x__y", "example.com/a-.b", "example.com/--", "example.com/a+b",
 	target,
 }
@@ -166,7 +169,9 @@ func genScenario(r *rand.Rand) scenario {
 			{"github.com/Azure/Go-SDK", "github.com/azure/go-sdk", "github.com/Azure/go_sdk"},
 			{target, "example.com/mod/target/sub", "example.com/mod/other/target", "example.com/target"},
 			{"example.com/svc/domain/user", "example.com/svc2/domain/user", "example.com/user"},
-		}[r.Intn(9)]
+			{"errors", "github.com/pkg/errors", "context", "golang.org/x/net/context", "slices", "golang.org/x/exp/slices", "encoding/json", "github.com/x/encoding/json"},
+			{"math/rand", "example.com/x/math/rand", "crypto/rand", "example.com/y/crypto/rand", "net/url", "example.com/net/url", "go/token", "example.com/fork/go/token", "text/template", "example.com/vendor/text/template", "os", "example.com/os", "io", "example.com/a/io"},
+		}[r.Intn(11)]
 		for _, i := range r.Perm(len(fam)) {
 			paths = append(paths, fam[i])
 		}
